@@ -14,7 +14,7 @@ import json, sys
 import cbgen
 
 CPPTYPE = {"u64": "uint64_t", "i32": "int32_t", "Pt": "Pt", "slice": "CSliceRef<uint8_t>", "ptr": "const uint8_t *", "void": "void", "vptr": "void *", "cvptr": "const void *",
-           "fnptr": "void (*)(int32_t)", "cbPt": "OpaqueCallback<Pt>", "cbu64": "OpaqueCallback<uint64_t>", "cont": "CGlueC"}
+           "fnptr": "void (*)(int32_t)", "cbPt": "OpaqueCallback<Pt>", "cbu64": "OpaqueCallback<uint64_t>", "cbraw": "Callback<void, uint64_t>", "cont": "CGlueC"}
 
 GROUP_DOC = """/**
  * Trait group potentially implementing `%s` traits.
